@@ -376,7 +376,7 @@ pub fn check_case(c: &SwitchCase, ctx: &mut Ctx) {
 
 fn mentions_heap(t: &Ty) -> bool {
     match t {
-        Ty::Vec(_) | Ty::VecDeque(_) | Ty::Box(_) | Ty::CowStr | Ty::CowBytes | Ty::BTreeMap(..) | Ty::BTreeSet(_) | Ty::BinaryHeap(_) => true,
+        Ty::Vec(_) | Ty::VecDeque(_) | Ty::Box(_) | Ty::CowStr | Ty::CowBytes | Ty::Cow(_) | Ty::BTreeMap(..) | Ty::BTreeSet(_) | Ty::BinaryHeap(_) => true,
         Ty::Prim(Prim::Str) => true,
         Ty::Named(_, a) | Ty::Tuple(a) => a.iter().any(mentions_heap),
         Ty::Array(x, _) | Ty::Option(x) | Ty::Range(x) | Ty::RangeInclusive(x) | Ty::Compact(x) => mentions_heap(x),
